@@ -136,6 +136,7 @@ type gen struct {
 	nmsg     int
 	nbranch  int
 	ntag     int
+	pending  []string // statements queued by a multi-statement pattern
 }
 
 var tablePool = []string{"t", "u", "v"}
@@ -224,6 +225,10 @@ func (g *gen) dml(m *mstate) string {
 		n := hx.Pick(g.r, free)
 		nc := g.r.Range(1, 3)
 		parts := []string{"create", n}
+		if g.r.Chance(1, 2) {
+			// the key column is not the leading column
+			parts = append(parts, fmt.Sprintf("pk@%d", g.r.Range(1, nc)))
+		}
 		for i := 0; i < nc; i++ {
 			g.usedCols[n]++
 			parts = append(parts, fmt.Sprintf("c%d:%s", g.usedCols[n], hx.Pick(g.r, []string{"int", "str"})))
@@ -286,7 +291,73 @@ var profiles = map[string][8]int{
 	"C34": {40, 16, 8, 3, 1, 12, 10, 10},
 }
 
+// otherValue returns a cell different from cur for a column of type ty.
+func (g *gen) otherValue(ty, cur string) string {
+	for i := 0; i < 8; i++ {
+		if v := g.cell(ty); v != cur {
+			return v
+		}
+	}
+	if cur == "N" {
+		if ty == "int" {
+			return "i1"
+		}
+		return "s" + hexS("a")
+	}
+	return "N"
+}
+
+// patterns: multi-statement sequences the properties name as hard cases
+func (g *gen) pattern(m *mstate) bool {
+	switch {
+	case g.prop == "C31" && len(m.W) > 0 && len(m.ids) > 1 && g.r.Chance(1, 9):
+		// revert on a DIRTY working set: unstaged edits in some table and/or a new untracked table, then
+		// revert a random commit (refused when the revert touches a dirty table)
+		t := hx.Pick(g.r, m.W)
+		if len(t.Cols) > 0 && len(t.Rows) > 0 && g.r.Chance(2, 3) {
+			rw := hx.Pick(g.r, t.Rows)
+			ci := g.r.Intn(len(t.Cols))
+			g.pending = append(g.pending, fmt.Sprintf("upd %s %d %s %s", t.Name, rw.PK, t.Cols[ci].Name, g.otherValue(t.Cols[ci].Ty, rw.Cells[ci])))
+		}
+		if g.r.Chance(1, 2) {
+			for _, n := range tablePool {
+				if findTable(m.W, n) == nil && findTable(m.H, n) == nil {
+					g.usedCols[n]++
+					g.pending = append(g.pending, fmt.Sprintf("create %s c%d:int", n, g.usedCols[n]), fmt.Sprintf("ins %s 1 i1", n))
+					break
+				}
+			}
+		}
+		g.pending = append(g.pending, hx.Pick(g.r, []string{"revert", "revertA"})+" "+g.commitRef(m))
+		return true
+	case g.prop == "C34" && len(m.branches) > 1 && len(m.W) > 0 && g.r.Chance(1, 8):
+		// edit, add, undo the edit: the change lives only in the STAGED root; then a checkout that moves
+		// the working set
+		t := hx.Pick(g.r, m.W)
+		if len(t.Cols) == 0 || len(t.Rows) == 0 {
+			return false
+		}
+		rw := hx.Pick(g.r, t.Rows)
+		ci := g.r.Intn(len(t.Cols))
+		g.pending = append(g.pending,
+			fmt.Sprintf("upd %s %d %s %s", t.Name, rw.PK, t.Cols[ci].Name, g.otherValue(t.Cols[ci].Ty, rw.Cells[ci])),
+			"add "+t.Name,
+			fmt.Sprintf("upd %s %d %s %s", t.Name, rw.PK, t.Cols[ci].Name, rw.Cells[ci]),
+			"checkoutmove "+g.otherBranch(m))
+		return true
+	}
+	return false
+}
+
 func (g *gen) op(m *mstate, ask func(string) string) string {
+	if len(g.pending) == 0 {
+		g.pattern(m)
+	}
+	if len(g.pending) > 0 {
+		l := g.pending[0]
+		g.pending = g.pending[1:]
+		return l
+	}
 	w := profiles[g.prop]
 	tot := 0
 	for _, x := range w {
